@@ -34,6 +34,13 @@ def base_manifest(rng):
         lines = text.split('\n')
         lines.insert(rng.randrange(len(lines)), '')
         text = '\n'.join(lines)
+    if rng.random() < 0.1:
+        # ... or a junk line that itself starts with "- " (it appears as "- - ..." in
+        # the signed file; exactly one level of dash-escaping is undone)
+        lines = text.split('\n')
+        lines.insert(rng.randrange(len(lines)), rng.choice(
+            ['- DATA evil 0', '- - DATA evil 0', '- IGNORE x']))
+        text = '\n'.join(lines)
     if rng.random() < 0.15:
         # a signer may also sign odd lines: an exotic line-break character
         # followed by something that looks like an entry
@@ -46,7 +53,7 @@ def base_manifest(rng):
 
 MUTATIONS = ['insert', 'delete', 'dup', 'move', 'trail', 'inner', 'crlf', 'dash+',
              'dash-', 'concat', 'nul', 'long', 'flip', 'outside', 'header', 'case',
-             'sepws', 'ubreak', 'none']
+             'sepws', 'sepnul', 'ubreak', 'none']
 
 UBREAKS = ['\x0b', '\x0c', '\x1c', '\x1d', '\x1e', '\x85', '\u2028', '\u2029']
 
@@ -134,6 +141,16 @@ def mutate(rng, signed, other_signed):
         for k in range(1, min(4, n)):
             if lines[k] == '':
                 lines[k] = rng.choice([' ', '\t', '\r'])
+                break
+    elif op == 'sepnul':
+        # NUL bytes on the separator line / on an armor header line (gpg takes a
+        # line holding only NULs for an empty one)
+        for k in range(1, min(4, n)):
+            if lines[k] == '':
+                if rng.random() < 0.6:
+                    lines[k] = rng.choice(['\x00', '\x00\x00', '\x00 '])
+                else:
+                    lines[k - 1] += '\x00'
                 break
     return op, '\n'.join(lines)
 
